@@ -772,7 +772,147 @@ def _is_user_like(c: ast.Call) -> bool:
     return any(dotted(a).endswith("config.log_likelihood") for a in c.args if isinstance(a, (ast.Attribute, ast.Name)))
 
 
+# ------------------------------------------------------------------ C07.i / C07.j
+def _have_blobs_fact(a: ast.AST, p: bool) -> Optional[bool]:
+    """does the fact (a is p) say blobs are enabled (True) / disabled (False)?  None: unrelated"""
+    txt = norm_text(a)
+    if isinstance(a, (ast.Name, ast.Attribute)) and ("have_blobs" in txt):
+        return p
+    if isinstance(a, ast.Compare) and len(a.ops) == 1 and isinstance(a.comparators[0], ast.Constant) and a.comparators[0].value is None and "blobs_dtype" in norm_text(a.left):
+        if isinstance(a.ops[0], ast.IsNot):
+            return p
+        if isinstance(a.ops[0], ast.Is):
+            return not p
+    return None
+
+
+def rule_j(ctx: Context, R: Reporter):
+    """C07.j  the stored blobs are only meaningful when blobs are enabled (with the option off the steps never
+    refresh them: the key keeps whatever an earlier prior batch left there and the commit appends it again
+    every iteration).  Every read of the blobs from the state outside the state class is therefore
+    guarded by the have-blobs flag (`have_blobs` / `blobs_dtype is not None`), directly or through an
+    enclosing conditional expression."""
+    from ..util import conds_holding_at as _cha
+
+    n = 0
+    for a in ctx.state.accesses:
+        if a.mode != "read" or a.key != "blobs" or a.func is None or a.func.cls is ctx.state.state_cls:
+            continue
+        fl = flow_of(a.func.node)
+        nd = fl.node_containing(a.call)
+        if nd is None:
+            continue
+        n += 1
+        facts = []
+        for (t, pol) in _cha(fl.cfg, nd):
+            facts += split_cond(t, pol)
+        # enclosing conditional expressions / boolean short-circuits inside the statement
+        root = nd.ast if nd.ast is not None else nd.stmt
+        if root is not None:
+            def visit(x, acc):
+                if x is a.call:
+                    facts.extend(acc)
+                    return True
+                if isinstance(x, ast.IfExp):
+                    return visit(x.test, acc) or visit(x.body, acc + split_cond(x.test, True)) or visit(x.orelse, acc + split_cond(x.test, False))
+                if isinstance(x, ast.BoolOp) and isinstance(x.op, ast.And):
+                    pre = list(acc)
+                    for v in x.values:
+                        if visit(v, pre):
+                            return True
+                        pre = pre + split_cond(v, True)
+                    return False
+                return any(visit(ch, acc) for ch in ast.iter_child_nodes(x))
+            visit(root, [])
+        ok = any(_have_blobs_fact(at_, p) is True for (at_, p) in facts)
+        R.check("C07.j", "the blobs are read from the state only where blobs are enabled", ok, a.func, a.call,
+                msg=f"{a.func.short}: `{unparse(a.call)[:50]}` is not guarded by the have-blobs flag (conditions here: {[(unparse(x)[:30], p) for (x, p) in facts][:4]}): with the "
+                    f"option off the stored blobs are stale left-overs of a prior batch, and they would be handed out row by row next to other particles' x and logl",
+                key=f"blobs-read-unguarded:{a.func.short}")
+    R.floor("C07.j", "reads of the stored blobs outside the state class", n, 3)
+
+
+def rule_i(ctx: Context, R: Reporter):
+    """C07.i  the likelihood that the configuration (hence every step) holds is the user's callable bound with
+    *all* the extra arguments the user gave: on every path the value passed as the configuration's
+    likelihood is the binding wrapper built from (callable, args, kwargs); a bare callable may be passed
+    only where both args and kwargs are known to be empty."""
+    cfgs = [c for c in ctx.prog.classes.values() if c.is_frozen_dataclass]
+    if len(cfgs) != 1:
+        raise AnalysisError("C07.i: configuration class not identified")
+    cc = cfgs[0]
+    # the binding wrapper: a class whose __call__ forwards *self.args and **self.kwargs
+    wrappers = [c for c in ctx.prog.classes.values() if "__call__" in c.methods and any(
+        isinstance(x, ast.Call) and any(isinstance(y, ast.Starred) for y in x.args) and any(k.arg is None for k in x.keywords) for x in ast.walk(c.methods["__call__"].node))]
+    if not wrappers:
+        raise AnalysisError("C07.i: binding wrapper (class whose __call__ forwards *args/**kwargs) not found")
+    n = 0
+    for fi in ctx.prog.functions.values():
+        for (call, tg) in ctx.cg.sites.get(fi.qualname, []):
+            if cc not in tg:
+                continue
+            kw = next((k for k in call.keywords if k.arg == "log_likelihood"), None)
+            if kw is None:
+                continue
+            n += 1
+            fl = flow_of(fi.node)
+            at = fl.node_containing(call)
+            vals = []
+            if isinstance(kw.value, ast.Name):
+                for d in fl.reaching(at, kw.value.id):
+                    vals.append((d.value if d.kind == "assign" and not d.path else None, d.node, d))
+            else:
+                vals.append((kw.value, at, None))
+            for (v, nd, d) in vals:
+                ok = False
+                why = ""
+                if isinstance(v, ast.Call) and any(t in wrappers for t in ctx.res.call_targets(fi, v) if isinstance(t, ClassInfo)):
+                    w = next(t for t in ctx.res.call_targets(fi, v) if isinstance(t, ClassInfo))
+                    init = w.methods.get("__init__")
+                    params = [p for p in (init.params if init else []) if p != "self"]
+                    got = {}
+                    for i, a_ in enumerate(v.args):
+                        if i < len(params):
+                            got[params[i]] = a_
+                    for k in v.keywords:
+                        if k.arg:
+                            got[k.arg] = k.value
+                    txt = {k: norm_text(x) for k, x in got.items()}
+                    ok = len(got) >= 3 and any("args" in t and "kwargs" not in t for t in txt.values()) and any("kwargs" in t for t in txt.values()) \
+                        and txt.get("args", "args").endswith("args") and "kwargs" not in txt.get("args", "") and "kwargs" in txt.get("kwargs", "kwargs")
+                    why = f"wrapper arguments {txt}"
+                elif v is not None:
+                    # a bare callable: only where nothing is to be bound
+                    from ..util import conds_holding_at as _cha
+
+                    facts = []
+                    for (t, pol) in (_cha(fl.cfg, nd) if nd is not None else []):
+                        facts += split_cond(t, pol)
+                    empty = {"args": False, "kwargs": False}
+                    for (a_, p) in facts:
+                        t = norm_text(a_)
+                        for k in empty:
+                            if t.endswith("_" + k) or t == k:
+                                if isinstance(a_, (ast.Name, ast.Attribute)) and p is False:
+                                    empty[k] = True
+                            if isinstance(a_, ast.Compare) and len(a_.ops) == 1 and isinstance(a_.comparators[0], ast.Constant) and a_.comparators[0].value is None \
+                                    and norm_text(a_.left).endswith(k) and not norm_text(a_.left).endswith("kw" + k if k == "args" else "\0"):
+                                if (isinstance(a_.ops[0], ast.Is) and p) or (isinstance(a_.ops[0], ast.IsNot) and not p):
+                                    empty[k] = True
+                    ok = all(empty.values())
+                    why = f"bare callable `{unparse(v)[:30]}` under {[(unparse(x)[:30], p) for (x, p) in facts]}"
+                else:
+                    raise AnalysisError(f"C07.i: {fi.short}: definition of the configured likelihood not understood")
+                R.check("C07.i", "the configured likelihood is the user's callable bound with all of its extra arguments", ok, fi, d.stmt if d is not None and d.stmt is not None else call,
+                        msg=f"{fi.short}: the likelihood handed to the configuration can be {why}: the user's positional or keyword arguments are dropped on that path, so every "
+                            f"stored log-likelihood is the value of a different function than the one the user supplied",
+                        key=f"likelihood-binding:{norm_text(v)[:50] if v is not None else '?'}")
+    R.floor("C07.i", "configuration constructions with a likelihood", n, 1)
+
+
 def run(ctx: Context, R: Reporter):
+    R.guard(rule_i, ctx, R)
+    R.guard(rule_j, ctx, R)
     R.guard(rule_a, ctx, R)
     R.guard(rule_b, ctx, R)
     R.guard(rule_c, ctx, R)
@@ -812,6 +952,10 @@ def variants():
         Variant("f-writeback-omits-x", "bad", edit(mu, "Mutator.run", _merge_writebacks(("u", "logl", "blobs"))), ["C07.f"]),
         Variant("g-nan-to-num-kernel", "bad", insert_before(mc, "BaseMCMCRunner._evaluate_likelihood", "self.n_calls += self.n_walkers", "logl_prime = np.nan_to_num(logl_prime)"), ["C07.g"], quick=True),
         Variant("g-nan-to-num-wrapper", "bad", replace_expr(core, "SamplerCore._log_like", "(self.config.log_likelihood(x), None)", "(np.nan_to_num(self.config.log_likelihood(x), nan=-np.inf), None)"), ["C07.g"]),
+        Variant("i-kwargs-dropped", "bad", replace_expr("tempest/sampler.py", "Sampler.__init__", "FunctionWrapper(log_likelihood, log_likelihood_args, log_likelihood_kwargs)", "FunctionWrapper(log_likelihood, log_likelihood_args, None)"), ["C07.i"], quick=True),
+        Variant("i-bare-when-no-args", "bad", replace_expr("tempest/sampler.py", "Sampler.__init__", "FunctionWrapper(log_likelihood, log_likelihood_args, log_likelihood_kwargs)", "FunctionWrapper(log_likelihood, log_likelihood_args, log_likelihood_kwargs) if log_likelihood_args else log_likelihood"), ["C07.i", "ANALYSIS-ERROR"]),
+        Variant("j-posterior-blobs-unguarded", "bad", replace_expr(core, "SamplerCore.compute_posterior", "self.config.blobs_dtype is not None", "return_blobs"), ["C07.j"], quick=True),
+        Variant("j-benign-guard-flipped-branches", "benign", replace_stmt(rs, "Resampler.run", "blobs = self.state.get_history('blobs', flat=True) if self.have_blobs else None", "blobs = None if not self.have_blobs else self.state.get_history('blobs', flat=True)")),
         Variant("benign-rename-mask", "benign", alpha_rename(mc, "BaseMCMCRunner.run", "mask_accept", "accepted"), quick=True),
         Variant("benign-rename-xprime", "benign", alpha_rename(mc, "BaseMCMCRunner.run", "x_prime", "xp")),
         Variant("benign-rename-idx", "benign", alpha_rename(rs, "Resampler.run", "idx_resampled", "picks"), quick=True),
